@@ -19,6 +19,12 @@ type verifProxy struct {
 	commits  []hg.Block
 	restored int
 	states   []state.State
+	// failStateChange: the application's state-change handler reports an error
+	// (e.g. the socket application is down at that moment)
+	failStateChange bool
+	// onRestore, when set, runs at the start of Restore (an application restore
+	// takes time; whatever arrives meanwhile arrives "during" it)
+	onRestore func()
 }
 
 func (p *verifProxy) SubmitCh() chan []byte { return p.submitCh }
@@ -27,8 +33,20 @@ func (p *verifProxy) CommitBlock(b hg.Block) (proxy.CommitResponse, error) {
 	return proxy.DummyCommitCallback(b)
 }
 func (p *verifProxy) GetSnapshot(blockIndex int) ([]byte, error) { return []byte("snap"), nil }
-func (p *verifProxy) Restore(snapshot []byte) error              { p.restored++; return nil }
-func (p *verifProxy) OnStateChanged(s state.State) error         { p.states = append(p.states, s); return nil }
+func (p *verifProxy) Restore(snapshot []byte) error {
+	if p.onRestore != nil {
+		p.onRestore()
+	}
+	p.restored++
+	return nil
+}
+func (p *verifProxy) OnStateChanged(s state.State) error {
+	p.states = append(p.states, s)
+	if p.failStateChange {
+		return fmt.Errorf("application unreachable")
+	}
+	return nil
+}
 
 type verifNode struct {
 	n     *Node
@@ -50,11 +68,11 @@ type verifTransport struct {
 	ffCalls  int
 }
 
-func (t *verifTransport) Listen()                   {}
-func (t *verifTransport) Consumer() <-chan net.RPC  { return t.consumer }
-func (t *verifTransport) LocalAddr() string         { return "local" }
-func (t *verifTransport) AdvertiseAddr() string     { return "local" }
-func (t *verifTransport) Close() error              { return nil }
+func (t *verifTransport) Listen()                  {}
+func (t *verifTransport) Consumer() <-chan net.RPC { return t.consumer }
+func (t *verifTransport) LocalAddr() string        { return "local" }
+func (t *verifTransport) AdvertiseAddr() string    { return "local" }
+func (t *verifTransport) Close() error             { return nil }
 func (t *verifTransport) Sync(target string, args *net.SyncRequest, resp *net.SyncResponse) error {
 	return fmt.Errorf("no sync")
 }
